@@ -12,11 +12,60 @@
 From Coq Require Import List NArith ZArith Bool.
 Import ListNotations.
 Require Import Aurora.Base.Corr Aurora.Consts Aurora.C02.Model Aurora.C07.Model Aurora.C01.Model.
+Require Import Aurora.C01.Pipe Aurora.C01.EncStore.
+Require Aurora.C02.Corr.
 Require Export Aurora.C07.Corr.
 Local Open Scope Z_scope.
 
+(** ** encrypted uploads at toy parameters.  REAL feeder, REAL
+    [pipeline/encryption.NewEncryptionWriter], REAL [store.NewStoreWriter], REAL
+    [hashtrie.NewHashTrieWriter] (reference length hs + kl, branching chunk/(hs+kl)); the
+    ChunkEncrypter is chunk_encryption.go's at toy chunk size: REAL
+    [encryption.New(key, 0, chunk/refsize, toyKeyHash)] for the span and
+    [encryption.New(key, chunk, 0, toyKeyHash)] for the data; toy chunk hash in place of BMT.
+    Keys are drawn by the harness; the random padding is read back from the stored chunk by
+    decrypting it.  Observed: Write return values, every chunk Put (digest), the returned
+    reference or the error class. *)
+Definition km32 (x : N) : N := N.land x 4294967295.
+Definition ktoy_acc (l : list N) : N := fold_left (fun a b => km32 (a * 131 + b + 1)%N) l 7%N.
+Fixpoint ktoy_out (a : N) (n : nat) (jk : N) : list N :=
+  match n with
+  | O => []
+  | S k => N.land (N.shiftr (km32 (km32 (a + jk) * 1029)) 16) 255 :: ktoy_out a k (jk + 2654435761)%N
+  end.
+Definition ktoy_hash (hlen : nat) (l : list N) : list N := ktoy_out (ktoy_acc l) hlen 0%N.
+
+Record enc_obs := mkEO {
+  eo_cuts : list N;
+  eo_keys : list bytes;                     (* key of the n-th EncryptChunk call *)
+  eo_pads : list bytes;                     (* its padding bytes *)
+  eo_rets : option (list Z);                (* None = equal to eo_cuts *)
+  eo_dig : N * N * N;
+  eo_res : N + bytes
+}.
+
 Inductive case :=
-| CReal (store : list (bytes * bytes)) (root : bytes) (size : Z) (steps : list (op * obs)).
+| CReal (store : list (bytes * bytes)) (root : bytes) (size : Z) (steps : list (op * obs))
+| CEncUp (chunk refsize : N) (hs : nat) (klen : nat) (dseed : N) (n : nat) (runs : list enc_obs).
+
+Definition enc_model (chunk refsize : N) (hs klen : nat) (data : bytes) (o : enc_obs) :=
+  let keys := fun n => nth n (eo_keys o) [] in
+  let pads := fun n i => nth i (nth n (eo_pads o) []) 0%N in
+  let br := N.to_nat (chunk / refsize) in
+  match pupload (enc_stage (C02.Corr.toy_hash hs) (ktoy_hash klen) chunk refsize keys pads)
+                (N.to_nat chunk) br (N.to_nat refsize) (C02.Corr.split_at data (map N.to_nat (eo_cuts o))) with
+  | Ok u => (u_rets u, u_log u, inr (u_root u))
+  | Err e => ([], [], inl (C02.Corr.err_code e))
+  end.
+
+Definition check_enc (chunk refsize : N) (hs klen : nat) (data : bytes) (o : enc_obs) : bool :=
+  let '(rets, lg, r) := enc_model chunk refsize hs klen data o in
+  match r with
+  | inl _ => C02.Corr.sum_eqb r (eo_res o)
+  | inr _ => C02.Corr.sum_eqb r (eo_res o)
+             && list_eqb Z.eqb rets (match eo_rets o with Some l => l | None => map Z.of_N (eo_cuts o) end)
+             && C02.Corr.dig_eqb (C02.Corr.digest lg) (eo_dig o)
+  end.
 
 Definition first_bad (c : case) : option nat :=
   match c with
@@ -25,11 +74,20 @@ Definition first_bad (c : case) : option nat :=
       | Some j => if Z.eqb (j_span j) size then run_steps (get_of_store store) j steps 1 else Some 0%nat
       | None => Some 0%nat
       end
+  | CEncUp chunk refsize hs klen dseed n runs =>
+      let data := C02.Corr.gen_data n dseed in
+      match mismatch_idx (check_enc chunk refsize hs klen data) runs with
+      | [] => None
+      | i :: _ => Some i
+      end
   end.
 Definition check_case (c : case) : bool := match first_bad c with None => true | Some _ => false end.
 Definition explain_case (c : case) :=
   match c with
   | CReal store root size steps =>
-      (first_bad c, match joiner_new (get_of_store store) root with
-                    | Some j => (j_span j, replay (get_of_store store) j steps) | None => (-1, []) end)
+      (first_bad c, inl (match joiner_new (get_of_store store) root with
+                    | Some j => (j_span j, replay (get_of_store store) j steps) | None => (-1, []) end))
+  | CEncUp chunk refsize hs klen dseed n runs =>
+      (first_bad c, inr (map (fun o => let '(rets, lg, r) := enc_model chunk refsize hs klen (C02.Corr.gen_data n dseed) o in
+                                       (rets, C02.Corr.digest lg, r, eo_res o)) runs))
   end.
